@@ -191,11 +191,80 @@ impl Drop for ZstDrop {
     }
 }
 
+/// a body that implements neither Debug nor MessageBody: its length is its size in memory
+#[derive(Clone)]
+pub struct Raw100 {
+    pub tok: Token,
+    pub bytes: [u8; 84],
+}
+
+impl MessageBody for Raw100 {
+    fn byte_len(&self) -> usize {
+        std::mem::size_of::<Raw100>()
+    }
+}
+
+pub enum TwinOp {
+    Make,
+    Check,
+}
+
+/// Two distinct types with the same name (declared in sibling blocks, as a macro expanded twice would do): a body of
+/// one of them must never be readable as the other.
+pub fn twin(uid: u32, op: TwinOp, msg: &mut Message) {
+    let first = uid % 2 == 0;
+    {
+        #[derive(Debug, Clone, MessageBody)]
+        struct Twin {
+            t: TokBody,
+        }
+        match op {
+            TwinOp::Make if first => msg.set_content(Twin { t: TokBody::new(uid, tok_len(uid)) }),
+            TwinOp::Check => {
+                let readable = msg.try_content::<Twin>().is_some() || msg.can_cast::<Twin>();
+                if readable != first {
+                    body_error(if readable { "wrong-type-read" } else { "value-changed" }, format!(
+                        "message {uid:#x}: a body of one of two equally named types was {} as the first of them", if readable { "readable" } else { "not readable" }));
+                }
+                if let Some(v) = msg.try_content::<Twin>() {
+                    if !v.t.ok(uid) {
+                        body_error("value-changed", format!("message {uid:#x}: twin body altered"));
+                    }
+                }
+            }
+            TwinOp::Make => {}
+        }
+    }
+    {
+        #[derive(Debug, Clone, MessageBody)]
+        struct Twin {
+            x: u64,
+            t: TokBody,
+        }
+        match op {
+            TwinOp::Make if !first => msg.set_content(Twin { x: check_of(uid), t: TokBody::new(uid, tok_len(uid)) }),
+            TwinOp::Check => {
+                let readable = msg.try_content::<Twin>().is_some() || msg.can_cast::<Twin>();
+                if readable == first {
+                    body_error(if readable { "wrong-type-read" } else { "value-changed" }, format!(
+                        "message {uid:#x}: a body of one of two equally named types was {} as the second of them", if readable { "readable" } else { "not readable" }));
+                }
+                if let Some(v) = msg.try_content::<Twin>() {
+                    if v.x != check_of(uid) || !v.t.ok(uid) {
+                        body_error("value-changed", format!("message {uid:#x}: twin body altered"));
+                    }
+                }
+            }
+            TwinOp::Make => {}
+        }
+    }
+}
+
 /// layout compatible with u64 but a different type
 #[derive(Debug, Clone, MessageBody)]
 pub struct OneField(pub u64);
 
-pub const N_BODIES: u8 = 22;
+pub const N_BODIES: u8 = 24;
 
 fn tok_len(uid: u32) -> usize {
     [8usize, 100, 436, 1000][(uid as usize >> 3) % 4]
@@ -229,6 +298,8 @@ pub fn declared_len_uid(body: u8, uid: u32) -> usize {
         18 => tok_len(uid) + tok_len(uid + 1),                 // [TokBody; 2]
         19 => (0..(uid % 4) as usize).map(|k| tok_len(uid + k as u32)).sum(), // VecDeque<TokBody> (ring buffer wrapped)
         20 => 0,                                               // ZstDrop
+        21 => if uid % 2 == 0 { tok_len(uid) } else { 8 + tok_len(uid) }, // one of two distinct types that share their type name
+        22 => std::mem::size_of::<Raw100>(),                   // non-debugable body: charged with its size in memory
         _ => [1usize << 29, 1 << 30, (1 << 31) + 5][(uid as usize >> 2) % 3], // bulk transfer modelled as one message (Body::new_with_len)
     }
 }
@@ -278,6 +349,8 @@ pub fn make_message(uid: u32, body: u8) -> Message {
             msg.set_content(v);
         }
         20 => msg.set_content(ZstDrop::new()),
+        21 => twin(uid, TwinOp::Make, &mut msg),
+        22 => msg.set_content_non_debugable(Raw100 { tok: Token::new(uid, false), bytes: [uid as u8; 84] }),
         _ => msg.set_body(Body::new_with_len(TokBody::new(uid, 0), declared_len_uid(k, uid))),
     }
     msg
@@ -307,7 +380,7 @@ fn wrong_type_access(uid: u32, k: u8, msg: &Message, which: u32) {
             must_fail!(OneField, "OneField(u64)");
         }
         2 => {
-            if !(1..=5).contains(&k) && k != 21 {
+            if !(1..=5).contains(&k) && k != 23 {
                 must_fail!(TokBody, "TokBody");
             }
             if k != 10 {
@@ -470,6 +543,11 @@ fn right_type_read(uid: u32, k: u8, msg: &Message) {
                 bad("ZstDrop not readable");
             }
         }
+        21 => {} // checked by `twin` (the types are only nameable inside it)
+        22 => match msg.try_content::<Raw100>() {
+            Some(r) if r.bytes.iter().all(|b| *b == uid as u8) => {}
+            _ => bad("Raw100 differs"),
+        },
         _ => match msg.try_content::<TokBody>() {
             Some(t) if t.ok(uid) => {}
             _ => bad("bulk body (TokBody with explicit length) not readable or altered"),
@@ -512,6 +590,8 @@ fn successful_cast(uid: u32, k: u8, msg: Message) {
         18 => cast_ok!([TokBody; 2], |a: &[TokBody; 2]| a[0].ok(uid)),
         19 => cast_ok!(VecDeque<TokBody>, |v: &VecDeque<TokBody>| v.len() == (uid % 4) as usize),
         20 => cast_ok!(ZstDrop, |_z: &ZstDrop| true),
+        21 => drop(msg),
+        22 => cast_ok!(Raw100, |r: &Raw100| r.bytes[0] == uid as u8),
         _ => cast_ok!(TokBody, |t: &TokBody| t.ok(uid)),
     }
 }
@@ -524,6 +604,10 @@ pub fn apply_ops(uid: u32, msg: Message, ops: &[u8]) {
     let exp = 64 + declared_len_uid(k, uid);
     if msg.header().kind < 0x0fff && u16::from(k) == msg.header().kind && msg.length() != exp {
         body_error("length", format!("message {uid:#x} (body kind {k}) reports length {}, header 64 + declared body length = {exp}", msg.length()));
+    }
+    if k == 21 {
+        op("twin_type_check");
+        twin(uid, TwinOp::Check, &mut msg);
     }
     if ops.is_empty() {
         drop(msg);
